@@ -397,6 +397,23 @@ where
         // 如果流是双向的，接收部分的流独立地管理结束。其实是上层应用决定接收的部分是否同时结束
     }
 
+    /// A frame from the peer that names a locally-initiated stream which has not been opened
+    /// yet is a connection error of type STREAM_STATE_ERROR (RFC 9000 19.5, 19.8, 19.10).
+    fn ensure_local_sid_opened(
+        &self,
+        sid: StreamId,
+        frame_type: FrameType,
+    ) -> Result<(), QuicError> {
+        if sid.id() >= self.stream_ids.local.opened_streams(sid.dir()) {
+            return Err(QuicError::new(
+                ErrorKind::StreamState,
+                frame_type.into(),
+                format!("local {sid} has not been opened yet"),
+            ));
+        }
+        Ok(())
+    }
+
     /// Called when a stream frame which from peer is received by local.
     ///
     /// If the correspoding stream is not exist, `accept` the stream.
@@ -421,6 +438,7 @@ where
                     format!("local {sid} cannot receive STREAM_FRAME"),
                 ));
             }
+            self.ensure_local_sid_opened(sid, stream_frame.frame_type())?;
         }
 
         if let Ok(set) = self.input.streams().as_mut()
@@ -491,6 +509,8 @@ where
                     }
                     self.try_accept_sid(sid)
                         .map_err(wrapper_error(stop_sending.frame_type()))?;
+                } else {
+                    self.ensure_local_sid_opened(sid, stop_sending.frame_type())?;
                 }
 
                 if let Some(final_size) = self
@@ -520,6 +540,8 @@ where
                     }
                     self.try_accept_sid(sid)
                         .map_err(wrapper_error(max_stream_data.frame_type()))?;
+                } else {
+                    self.ensure_local_sid_opened(sid, max_stream_data.frame_type())?;
                 }
                 if let Some((outgoing, _s)) = self
                     .output
